@@ -132,13 +132,10 @@ Ltac step_cases H :=
   unfold step_core in H;
   let r := fresh "r" in let Hp := fresh "Hp" in let Hph := fresh "Hph" in
   match type of H with context [procs ?s ?p] => destruct (procs s p) as [r|] eqn:Hp; [|discriminate H] end;
-  destruct (ph r) as [[|]|[| | | |]| | |?w| |?ok| |] eqn:Hph; try discriminate H;
-  [ match type of H with context [names ?f Side] =>
-      let i := fresh "iside" in let Hs := fresh "Hside" in
-      destruct (names f Side) as [i|] eqn:Hs;
-      [ match type of H with context [try_lock_ex ?f ?i ?p] =>
-          let fl := fresh "fl" in let Hl := fresh "Hlk" in
-          destruct (try_lock_ex f i p) as [fl|] eqn:Hl; [|discriminate H] end | ] end
+  destruct (ph r) as [[?iside|]|[| | | |]| | |?w| |?ok| |] eqn:Hph; try discriminate H;
+  [ match type of H with context [try_lock_ex ?f ?i ?p] =>
+      let fl := fresh "fl" in let Hl := fresh "Hlk" in
+      destruct (try_lock_ex f i p) as [fl|] eqn:Hl; [|discriminate H] end
   | idtac
   | match type of H with context [names ?f Target] =>
       let i := fresh "itgt" in let Ht := fresh "Htgt" in destruct (names f Target) as [i|] eqn:Ht end
@@ -226,7 +223,7 @@ Qed.
 Lemma timeout_eff : forall s p r, procs s p = Some r -> eff p s (timeout_step s p r).
 Proof.
   intros s p r Hp. unfold timeout_step.
-  destruct (ph r) as [[|]|[| | | |]| | |w| |ok| |]; try (apply E_ext; reflexivity).
+  destruct (ph r) as [[?|]|[| | | |]| | |w| |ok| |]; try (apply E_ext; reflexivity).
   destruct w; try (apply E_ext; reflexivity).
   cbn. apply E_unlink; reflexivity.
 Qed.
@@ -419,10 +416,10 @@ Proof.
 Qed.
 
 Lemma blk_phase : forall s p r, step_core s p = Blk -> procs s p = Some r ->
-  ph r = PUpd true \/ ph r = PLoad LO \/ ph r = PSave WOp.
+  (exists i, ph r = PUpd (Some i)) \/ ph r = PLoad LO \/ ph r = PSave WOp.
 Proof.
   intros s p r H Hp. unfold step_core in H. rewrite Hp in H.
-  destruct (ph r) as [[|]|[| | | |]| | |w| |ok| |] eqn:Hph; auto; try discriminate H.
+  destruct (ph r) as [[i|]|[| | | |]| | |w| |ok| |] eqn:Hph; eauto; try discriminate H.
   - destruct (names (sfs s) Target); discriminate H.
   - destruct (open_existing (sfs s) Target); discriminate H.
   - destruct (rh r); discriminate H.
@@ -440,7 +437,7 @@ Proof.
   - destruct (procs s p) as [r|] eqn:Hp; [|discriminate]. exists r.
     destruct (budget r).
     + inversion H; subst; clear H. unfold timeout_step.
-      destruct (blk_phase _ _ _ Hc Hp) as [Hph|[Hph|Hph]]; rewrite Hph; cbn;
+      destruct (blk_phase _ _ _ Hc Hp) as [[iu Hph]|[Hph|Hph]]; rewrite Hph; cbn;
         (eexists; split; [reflexivity|split; [reflexivity|split; [reflexivity|]]]); ps_tac Hph.
     + inversion H; subst. eexists; split; [reflexivity|split; [reflexivity|split; [reflexivity|]]].
       split; cbn; auto; try (intros Hq; right; auto).
